@@ -70,7 +70,12 @@ func WithMiddleware(middleware Middleware) ServerOption {
 func (s *Server) RegisterRoute(route *Route) error {
 	// Add global middlewares to the route
 	if len(s.middlewares) > 0 {
-		route.Middlewares = append(s.middlewares, route.Middlewares...)
+		// Copy: appending to s.middlewares directly writes the route's own
+		// middlewares into spare capacity that every route shares, so a route
+		// registered later overwrote them (an auth middleware included).
+		combined := make([]Middleware, 0, len(s.middlewares)+len(route.Middlewares))
+		combined = append(combined, s.middlewares...)
+		route.Middlewares = append(combined, route.Middlewares...)
 	}
 
 	return s.router.RegisterRoute(route)
